@@ -24,9 +24,13 @@ type Ev struct {
 	// T (create, mode "mixed"): the transport of the client in this slot: rest | grpc
 	T string `json:"t,omitempty"`
 	// Ck: which cookie the exchange carries: own (slot S's cookie, whatever its state) | none | unknown | empty | mangled
+	// On a create (POST /session; a cookie-jar client posts with whatever cookie it has): "" none | own (slot S's current cookie; when
+	// that session is live the client re-posts and then closes its old session with the old cookie) | other (the current cookie of
+	// slot Cs) | ended (the most recently retired cookie) | garbage
 	Ck string `json:"ck,omitempty"`
+	Cs int    `json:"cs,omitempty"`
 	// Q: try unl ren noop
-	Q    string  `json:"q,omitempty"`
+	Q string `json:"q,omitempty"`
 	// Name: hex, or a compact form for long names: "rep:<unit hex>:<count>[:<suffix hex>]" = unit repeated count times + suffix
 	Name string  `json:"name,omitempty"`
 	Size *int32  `json:"size,omitempty"`
@@ -50,10 +54,10 @@ type Cfg struct {
 }
 
 type History struct {
-	ID     string `json:"id"`
+	ID string `json:"id"`
 	// c15: REST and gRPC side by side, each on its own server; c20: REST only, adversarial cookies and gaps;
 	// mixed: REST sessions and gRPC connections on ONE server (C15_mixed)
-	Mode string `json:"mode"`
+	Mode   string `json:"mode"`
 	Cfg    Cfg    `json:"cfg"`
 	Events []Ev   `json:"events"`
 }
@@ -77,6 +81,9 @@ type Profile struct {
 	Shards    []uint32       `json:"shards"`
 	BadKeyPct int            `json:"bad_key_pct"`
 	BadCkPct  int            `json:"bad_ck_pct"` // c20: share of exchanges with a missing / unknown / empty / mangled cookie
+	// CreateCkPct: share (%) of the session creations that carry a cookie (of another live session, of an ended session, garbage, the
+	// slot's own); after one that carries another live session's cookie both sessions are used as independent connections
+	CreateCkPct int `json:"create_ck_pct"`
 	// LongPct: share (%) of the histories that also draw lock names from LongNames and literal keys from LongKeys (request
 	// bodies of 1 KB .. 1 MB: transport-level size limits are part of "the same request gets the same response")
 	LongPct   int      `json:"long_pct"`
